@@ -30,6 +30,10 @@ ASSUMPTIONS = [
     "the implementation never raises an incarnation, so 'DEAD is not reported ALIVE again without a higher incarnation' is "
     "checked as: an observer that reported DEAD never reports anything else for that member afterwards",
     "phi(t1) <= phi(t2) + 1e-9 for t1 < t2, both at or after the last heartbeat (inf counts as the largest value)",
+    "sliding window (docstrings: 'maintains a sliding window of heartbeat inter-arrival times', 'max_sample_size: maximum number of "
+    "inter-arrival intervals to keep', 'mean_interval: mean inter-arrival time'): judged only once at least max_sample_size real "
+    "intervals were recorded, so that the bootstrap sample plays no role; the twin detector is fed exactly the last "
+    "max_sample_size+1 heartbeats with the same constructor arguments; phi values are compared with 1e-6 relative tolerance",
 ]
 
 ALIVE, SUSPECT, DEAD = "ALIVE", "SUSPECT", "DEAD"
@@ -185,6 +189,7 @@ def run_cluster(case, obl, *, crash=False, flap=False):
         tc_units = _int(case.get("tc"), 0, 10 ** 6, 0)
         if case.get("late"):
             tc_units += (n + 1) * 100          # after N-1 rounds the victim has pinged every peer once (+ 2 rounds of slack)
+        tc_units += _int(case.get("uptime"), 0, 5000, 0) * 100     # healthy rounds before the crash (completeness-uptime)
         tc = tc_units * unit
         if flap:
             down = _int(case.get("down"), 1, 10 ** 6, 200)
@@ -284,11 +289,15 @@ def phi_strategy(tier):
     gap = st.one_of(st.integers(1, 3000), st.sampled_from([1, 10, 100, 500, 1000]))
     return st.fixed_dictionaries({
         "thr": st.integers(0, len(THRESHOLDS) - 1),
-        "window": st.sampled_from([1, 2, 3, 5, 10, 200]),
+        "window": st.sampled_from([1, 2, 3, 5, 10, 20, 200]),
         "min_std_ms": st.sampled_from([1, 10, 100, 1000]),
         "initial_ms": st.sampled_from([0, 0, 100, 1000]),
         "t0_ms": st.integers(0, 10 ** 6),
-        "gaps_ms": st.lists(gap, max_size=30),
+        # mostly short histories against small windows (eviction after a handful of heartbeats); some long regular ones that
+        # overflow the default window of 200
+        "gaps_ms": st.one_of(st.lists(gap, max_size=30), st.lists(gap, max_size=30),
+                             st.builds(lambda g, n, tail: [g] * n + tail, st.sampled_from([100, 500, 1000]), st.integers(201, 320),
+                                       st.lists(gap, max_size=5))),
         "queries_ms": st.lists(st.one_of(st.integers(0, 5000), st.integers(0, 10 ** 6)), min_size=2, max_size=30),
         # further query times given as standard scores: t = last heartbeat + mean + (y/100)*std of the detector's own window,
         # so that the whole range of the tail probability (down to its underflow at y ~ 38) is visited whatever the scale
@@ -307,11 +316,30 @@ def ex_phi(case):
     t = _int(case.get("t0_ms"), 0, 10 ** 9, 0)
     det.heartbeat(t / 1000)
     n_hb = 1
-    for g in (case.get("gaps_ms") or [])[:60]:
+    stamps = [t]
+    for g in (case.get("gaps_ms") or [])[:400]:
         if isinstance(g, (int, float)):
             t += _int(g, 1, 10 ** 7, 1)
             det.heartbeat(t / 1000)
             n_hb += 1
+            stamps.append(t)
+    # ---- sliding window: the statistics are those of the last max_sample_size inter-arrival times
+    window = _int(case.get("window"), 1, 1000, 200)
+    twin = None
+    if n_hb - 1 >= window:                       # the window is full of real intervals (the bootstrap sample, if any, is out)
+        last = [(stamps[i] / 1000) - (stamps[i - 1] / 1000) for i in range(len(stamps) - window, len(stamps))]
+        ref_mean = math.fsum(last) / len(last)
+        got = det.stats.mean_interval
+        if abs(got - ref_mean) > 1e-9 * max(1.0, abs(ref_mean)):
+            r.add(f"{P}/phi/window-mean-is-not-the-mean-of-the-last-intervals",
+                  f"max_sample_size={window}, {n_hb} heartbeats: mean_interval={got!r}, mean of the last {window} intervals={ref_mean!r}")
+        if n_hb - 1 > window:
+            # a detector that saw only the heartbeats of the window must rate the same silence the same way
+            twin = PhiAccrualDetector(threshold=_pick(THRESHOLDS, case.get("thr")), max_sample_size=window,
+                                      min_std=_int(case.get("min_std_ms"), 1, 10 ** 6, 100) / 1000,
+                                      initial_interval=(init / 1000) if init else None)
+            for x in stamps[len(stamps) - window - 1:]:
+                twin.heartbeat(x / 1000)
     qs = {_int(q, 0, 10 ** 9, 0) / 1000 for q in (case.get("queries_ms") or []) if isinstance(q, (int, float))}
     stats = det.stats
     std = max(stats.std_interval, _int(case.get("min_std_ms"), 1, 10 ** 6, 100) / 1000)
@@ -334,10 +362,32 @@ def ex_phi(case):
             if v > prev[1]:
                 rising = True
         prev = (now, v)
+        if twin is not None:
+            w = twin.phi(now)
+            same = (v == w) or (not math.isinf(v) and not math.isinf(w) and abs(v - w) <= 1e-6 * max(1.0, abs(v), abs(w)))
+            if not same:
+                r.add(f"{P}/phi/phi-depends-on-heartbeats-older-than-the-window",
+                      f"max_sample_size={window}: after {n_hb} heartbeats phi(silence {q:.3f}s)={v!r}; a detector that saw only "
+                      f"the last {window + 1} of them says {w!r}")
+                twin = None
     r.nontrivial = rising and n_hb >= 2
     r.labels.append("rising" if rising else "flat")
     r.labels.append("no-intervals" if (n_hb < 2 and not init) else "with-intervals")
+    if n_hb - 1 > window:
+        r.labels.append("window-overflowed")
     return r
+
+
+def uptime_strategy(tier):
+    """Tiny clusters that stay healthy for 1000-1600 probe rounds (every detector has seen several times more heartbeats
+    than its window of 200 holds) before one member stops."""
+    return st.fixed_dictionaries({
+        "n": st.just(3), "interval": st.integers(0, len(INTERVALS_MS) - 1), "susp": st.integers(0, len(SUSP_FACTORS) - 1),
+        "thr": st.sampled_from([5, 6, 7]), "k": st.integers(0, 2), "rounds": st.just(20),
+        "shuffle": st.lists(st.integers(0, 999), max_size=10), "delays": st.lists(st.integers(0, 10), max_size=20),
+        "seed": st.integers(0, 2 ** 16), "victim": st.integers(0, 2), "tc": st.integers(0, 300), "late": st.just(True),
+        "uptime": st.integers(1000, 1600 if tier != "thorough" else 4000),
+    })
 
 
 RULE_CLUSTER = ("3-8 real MembershipProtocol nodes, probe interval 0.1-2 s, suspicion timeout 0.5-10 intervals, 0-5 delegates, phi "
@@ -359,12 +409,17 @@ OBLIGATIONS = [
                "restricted twin of `completeness` in which the open finding crash-before-first-heartbeat cannot occur by construction: "
                "the crash comes at least N+1 rounds after the start, i.e. after the victim's first full probe cycle, so every observer "
                "has received a ping from it; same clauses, nothing excluded"),
+    Obligation("completeness-uptime", uptime_strategy, lambda c: ex_completeness(c, "completeness-uptime"),
+               {"quick": 32, "thorough": 600},
+               "completeness after a long healthy uptime: 3 members, phi threshold 8/12/16, the victim stops after 1000-1600 healthy probe "
+               "rounds, i.e. after every detector has seen several times more heartbeats than its window of 200 intervals holds; the "
+               "same deadline (it does not depend on the uptime) and the same clauses as `completeness`"),
     Obligation("flap", cluster_strategy(crash=True, flap=True), ex_flap, {"quick": 300, "thorough": 12000},
                RULE_CLUSTER + "with loss bits; one member is down for 2-40 intervals and then restarts (start() again). Only the "
                "finality clause is judged: an observer that reported a member DEAD never reports it ALIVE/SUSPECT again (the "
                "implementation has no higher incarnation). Non-trivial = the restarted member had been declared DEAD by someone"),
     Obligation("phi", phi_strategy, ex_phi, {"quick": 3000, "thorough": 120000},
                "PhiAccrualDetector alone: generated threshold/window/min_std/initial interval, 1-31 heartbeats with gaps 1 ms-3 s, an "
-               "increasing grid of 2-42 query times at or after the last heartbeat (absolute offsets and standard scores -3..45 of the detector's own window); phi must be non-decreasing along the grid "
-               "(1e-9 tolerance, inf = top). Non-trivial = phi actually rises on the grid and >= 2 heartbeats"),
+               "increasing grid of 2-42 query times at or after the last heartbeat (absolute offsets and standard scores -3..45 of the detector's own window); histories of up to 30 heartbeats against windows of 1-20 and some of 200-325 regular heartbeats against the default window of 200; phi must be non-decreasing along the grid "
+               "(1e-9 tolerance, inf = top); once the window is full of real intervals, mean_interval must equal the mean of the last max_sample_size intervals (1e-9 relative) and phi for a given silence must equal (1e-6 relative) that of a detector that saw only the heartbeats of the window. Non-trivial = phi actually rises on the grid and >= 2 heartbeats"),
 ]
